@@ -39,11 +39,18 @@ class _R(real.Annotation):
 UNIVERSE = [_E(), _U(), _R(1), _R(2)]
 
 
-def pick_annotations(node, name):
+def pick_annotations(node, name, below=False):
+    """an arbitrary set of top-level annotations; with below=True also an arbitrary set of non-eliminatable,
+    non-relocatable annotations carried by sub-expressions (what Base.__new__ accumulates in
+    _uneliminatable_annotations while .annotations only shows the top level)"""
     c = cur()
     uni = c.opts.get("anno_universe") or UNIVERSE
     k = c.choose([True] * (1 << len(uni)), f"annotations-{name}")
     node._annos = tuple(a for i, a in enumerate(uni) if k >> i & 1)
+    if below:
+        un = [a for a in uni if not (a.eliminatable or a.relocatable)]
+        k = c.choose([True] * (1 << len(un)), f"annotations-below-{name}")
+        node.root().child_unelim = {a for i, a in enumerate(un) if k >> i & 1}
     return node
 
 
@@ -71,10 +78,11 @@ def ob_handle_annotations(tier="quick"):
     proxies.set_iw(24)
 
     def body(c):
-        simp = pick_annotations(SN.new_node(("bv", 8), "root_simp"), "simp")
+        simp = pick_annotations(SN.new_node(("bv", 8), "root_simp"), "simp", below=True)
         nargs = 1 + c.choose([True, True], "n-args")
-        args = [pick_annotations(SN.new_node(("bv", 8), f"root_a{i}"), f"a{i}") for i in range(nargs)]
+        args = [pick_annotations(SN.new_node(("bv", 8), f"root_a{i}"), f"a{i}", below=True) for i in range(nargs)]
         mixed = tuple(args) + (5,)     # non-AST arguments are skipped
+        c.describers.append(lambda m: {"simp": _anno_desc(simp), "args": [_anno_desc(a) for a in args]})
         try:
             r = f(simp, mixed)
         except (PathEnd, Undecided):
@@ -102,7 +110,47 @@ def ob_handle_annotations(tier="quick"):
             c.fail("_handle_annotations/relocatable-carried", f"relocatable annotations {sorted(map(repr, need_r - _reloc(r)))} of an argument are missing on the result", kind="C07")
         return "kept"
 
-    return explore(body, {"budget_s": 600, "max_depth": 2000, "max_paths": 500000})
+    return explore(body, {"budget_s": 600, "max_depth": 2000, "max_paths": 500000, "replay": replay_handle_annotations})
+
+
+def _anno_desc(n):
+    idx = lambda a: next(i for i, u in enumerate(UNIVERSE) if u is a)
+    return {"own": [idx(a) for a in n.root()._annos or ()], "below": sorted(idx(a) for a in getattr(n.root(), "child_unelim", ()))}
+
+
+def _real_annotated(name, d):
+    """a real compound node with top-level annotations d['own'] whose sub-expression carries d['below']"""
+    import claripy
+    from claripy.ast import BV
+    inner = claripy.BVS(name + "_i", 8, explicit_name=True)
+    if d["below"]:
+        inner = inner.annotate(*[UNIVERSE[i] for i in d["below"]])
+    node = BV("__xor__", (inner, claripy.BVS(name + "_j", 8, explicit_name=True)), length=8)
+    if d["own"]:
+        node = node.annotate(*[UNIVERSE[i] for i in d["own"]])
+    return node
+
+
+def replay_handle_annotations(failure):
+    """the real operations._handle_annotations on real nodes carrying the counter-model's annotation sets"""
+    import claripy
+    wit = failure["witness"]
+    simp = _real_annotated("simp", wit["simp"])
+    args = [_real_annotated(f"a{i}", d) for i, d in enumerate(wit["args"])]
+    try:
+        r = claripy.operations._handle_annotations(simp, (*args, 5))
+    except Exception as e:  # noqa
+        return {"reproduced": True, "text": f"_handle_annotations raised {type(e).__name__}: {e}"}
+    if r is None:
+        return {"reproduced": False, "text": "the real _handle_annotations refuses this rewrite"}
+    need_u = set().union(*[a._uneliminatable_annotations for a in args])
+    need_r = set().union(*[a._relocatable_annotations for a in args])
+    lost_u, lost_r = need_u - set(r._uneliminatable_annotations), need_r - set(r._relocatable_annotations)
+    desc = (f"_handle_annotations(simp={simp!r} annotations={simp.annotations} (below: {sorted(map(repr, simp._uneliminatable_annotations))}), "
+            f"args={[(repr(a), a.annotations, sorted(map(repr, a._uneliminatable_annotations))) for a in args]})")
+    if lost_u or lost_r:
+        return {"reproduced": True, "text": f"{desc} accepted the rewrite although it loses {sorted(map(repr, lost_u | lost_r))}"}
+    return {"reproduced": False, "text": f"{desc}: nothing lost"}
 
 
 def _if_rec_contract(cond, a, b):
@@ -203,7 +251,15 @@ def ob_algo_simplify(tier="quick"):
             return r
         NS = type("NS", (), {"backends": type("B", (), {"any_backend": type("AB", (), {"simplify": staticmethod(any_simplify)})})})
         ns = loader.load("claripy/algorithm/simplify.py", "claripy.algorithm.simplify", overrides={"claripy": NS, "Base": SN.SymNode})
-        ns["simplification_cache"] = {}
+        writes = []
+
+        class GhostCache(dict):
+            """simplification_cache as a data structure with an invariant: whatever is stored under the key of an expression
+            satisfies simplify()'s postcondition for that expression (checked on every write; assumed on a hit)"""
+            def __setitem__(self, k, v):
+                writes.append((k, v))
+                dict.__setitem__(self, k, v)
+        cache = ns["simplification_cache"] = GhostCache()
         e = pick_annotations(SN.new_node(("bv", 8), "root_e"), "e")
         e.is_leaf = lambda: False
         # shape: a binary node whose children carry annotations; Base.__new__ already propagated the children's
@@ -215,6 +271,20 @@ def ob_algo_simplify(tier="quick"):
         # requires (contract of Base.__new__, which built e): e carries the relocatable annotations of its children
         extra = [a for k in (k1, k2) for a in k._relocatable_annotations if a not in e._annos]
         e._annos = tuple(e._annos) + tuple(dict.fromkeys(extra))
+        need_top = set(e.annotations)
+        need_rel = set(k1._relocatable_annotations) | set(k2._relocatable_annotations)
+
+        def annos_ok(node):
+            have = set(node.annotations)
+            return need_top <= have and (not e.annotations or need_rel <= have)
+        hit = c.choose([True, True], "cache-state") == 1
+        if hit:
+            # requires (cache invariant): an earlier simplify(e) stored a node that satisfies the postcondition for e
+            r0 = pick_annotations(SN.new_node(e.sort, label="cached"), "cached")
+            c.assume(r0.den == e.den)
+            if not annos_ok(r0):
+                raise PathEnd()
+            dict.__setitem__(cache, e.hash(), r0)
         try:
             r = ns["simplify"](e)
         except (PathEnd, Undecided):
@@ -228,16 +298,50 @@ def ob_algo_simplify(tier="quick"):
         c.check("algorithm.simplify/meaning", r.den == e.den, "simplify() changed the meaning")
         c.n_vcs += 1
         have = set(r.annotations)
-        need_top = set(e.annotations)
-        need_rel = set(k1._relocatable_annotations) | set(k2._relocatable_annotations)
         if not need_top <= have:
             c.fail("algorithm.simplify/top-annotations-kept", f"annotations {sorted(map(repr, need_top - have))} of the simplified expression are lost", kind="C07")
         if e.annotations and not need_rel <= have:
             c.fail("algorithm.simplify/argument-relocatable-kept", f"relocatable annotations {sorted(map(repr, need_rel - have))} of a direct argument are lost", kind="C07")
-        return "ret"
+        # ensures (cache invariant): every entry written satisfies the postcondition for the expression it is keyed by,
+        # so that a later call answered from the cache (the `hit` paths above) is correct too
+        for k, v in writes:
+            if not (k == e.hash()):
+                c.fail("algorithm.simplify/cache-key", "an entry was stored under a key other than the expression's hash", kind="C07")
+                continue
+            if not isinstance(v, SN.SymNode):
+                c.fail("algorithm.simplify/cache-invariant", f"a {type(v).__name__} was stored in the cache")
+                continue
+            c.check("algorithm.simplify/cache-invariant-meaning", v.den == e.den, "the cached result has a different meaning")
+            if not annos_ok(v):
+                c.fail("algorithm.simplify/cache-invariant", "the node stored in simplification_cache lacks annotations the result must carry "
+                       f"(stored: {sorted(map(repr, v.annotations))}, required: {sorted(map(repr, need_top | (need_rel if e.annotations else set())))}): "
+                       "the next simplify() of the same expression returns it", kind="C07")
+        return "ret-hit" if hit else "ret"
 
-    return explore(body, {"budget_s": 900, "max_depth": 2000, "max_paths": 2000000,
-                          "anno_universe": UNIVERSE[:3] if tier == "quick" else UNIVERSE})
+    def native(failure):
+        """the real claripy.simplify, called twice on an annotated expression that Z3 changes, with the plain result alive"""
+        import claripy
+        if "cache" not in failure.get("label", ""):
+            return {"reproduced": True, "text": "annotation clause on the direct result (no expression-level replay)"}
+        x, y = claripy.BVS("sc_rx", 32, explicit_name=True), claripy.BVS("sc_ry", 32, explicit_name=True)
+        bad = []
+        for a in (UNIVERSE[1], UNIVERSE[2]):
+            e = ((x + y) - y).annotate(a)
+            keep = [claripy.simplify(e), claripy.simplify((x + y) - y)]
+            for i in range(3):
+                r = claripy.simplify(e)
+                keep.append(r)
+                if a not in r.annotations:
+                    bad.append(f"call #{i + 2} of simplify({e!r} annotated with {a!r}) returned {r!r} with annotations {r.annotations}")
+        if bad:
+            return {"reproduced": True, "text": "; ".join(bad[:2])}
+        return {"reproduced": False, "text": "repeated simplify() keeps the annotations on the real code"}
+
+    res = explore(body, {"budget_s": 900, "max_depth": 2000, "max_paths": 2000000, "replay": native,
+                         "anno_universe": UNIVERSE[:3] if tier == "quick" else UNIVERSE})
+    if res.status == "discharged" and not (res.covers.get("ret") and res.covers.get("ret-hit")):
+        res.status, res.reason = "error", f"vacuity: cache-miss / cache-hit paths not both reached ({res.covers})"
+    return res
 
 
 # ---- operations.op._op: rewriting + annotation handling + node creation ---------------------------------------
@@ -255,7 +359,7 @@ def ob_op_wrapper(tier="quick"):
             kids = [a for a in args if isinstance(a, SN.SymNode)]
             r = SN.new_node(("bv", 8), label="simp")
             c.assume(r.den == kids[0].den + kids[1].den)
-            pick_annotations(r, "simp-result")
+            pick_annotations(r, "simp-result", below=True)
             annotated = c.choose([True, True], "annotated-flag") == 1
             if annotated:
                 # contract of a rewriter that reports annotated=True: it has handled annotations itself
@@ -268,8 +372,8 @@ def ob_op_wrapper(tier="quick"):
         ns["claripy"] = type("NS", (), {"ast": type("A", (), {"Base": SN.SymNode}), "fp": claripy.fp,
                                           "simplifications": type("S", (), {"simplify": staticmethod(simplify_contract)})})
         opf = ns["op"]("__add__", (SN.SymBV, SN.SymBV), SN.SymBV, extra_check=ns["length_same_check"], calc_length=ns["basic_length_calc"])
-        a = pick_annotations(SN.new_node(("bv", 8), "root_a"), "a")
-        b = pick_annotations(SN.new_node(("bv", 8), "root_b"), "b")
+        a = pick_annotations(SN.new_node(("bv", 8), "root_a"), "a", below=True)
+        b = pick_annotations(SN.new_node(("bv", 8), "root_b"), "b", below=True)
         try:
             r = opf(a, b)
         except (PathEnd, Undecided):
